@@ -132,6 +132,8 @@ def gen_records(rng):
     n_ids = rng.randint(1, 6)
     ids = [f"b{j}" for j in range(n_ids)]
     contests = ["c1", "c2", "c3"][: rng.randint(1, 3)]
+    if rng.random() < 0.2:
+        contests = [339, 7, "c3"][: len(contests)]     # contest identifiers that are numbers, not strings
     recs = []
     mode = rng.choice(("adjacent", "interleaved", "single"))
     seq = []
